@@ -306,8 +306,93 @@ impl Check for C09 {
             key.push_str(&p.text[p.text.len().saturating_sub(400)..]);
         }
         Outcome::pass(true, hash64(&key))
+            .readable(built.description.clone())
             .label(if built.strong { "strong" } else { "external" })
             .label(format!("problems={}", built.problems.len().min(8)))
+    }
+    fn describe(&self, case: &TaskCase) -> Value {
+        case_json(case)
+    }
+    fn from_replay(&self, j: &Value) -> Option<TaskCase> {
+        case_from_json(j)
+    }
+}
+
+// ---------------------------------------------------------------------------------------
+// C09: syntax differential against the TPTP reference tool shipped with the repository's tests
+
+pub struct Tptp4x;
+
+const TPTP4X: &str = "/repo/tests/examples/tptp4X_linux";
+
+impl Check for Tptp4x {
+    type Case = TaskCase;
+    fn name(&self) -> &'static str {
+        "tptp4x-differential"
+    }
+    fn shards(&self) -> usize {
+        8
+    }
+    fn shrink_steps(&self) -> usize {
+        100
+    }
+    fn cases(&self, tier: Tier) -> usize {
+        tier.pick(250, 8_000)
+    }
+    fn strategy(&self, _tier: Tier) -> BoxedStrategy<TaskCase> {
+        task_strategy(false)
+    }
+    fn rule(&self) -> String {
+        "tasks as in part well-formed; up to 4 problems of each task are written to files and read by tptp4X (the TPTP syntax tool the repository's own tests use); oracle: tptp4X accepts every problem the strict reader accepts (a problem the strict reader rejects is reported by part well-formed); non-trivial = at least one problem accepted by both; distinct by problem text; skipped when the tool is absent".into()
+    }
+    fn run(&self, case: &TaskCase) -> Outcome {
+        if !std::path::Path::new(TPTP4X).exists() {
+            return Outcome::skip("tptp4X not present");
+        }
+        let built = match build(case, false) {
+            Ok(b) => b,
+            Err(_) => return Outcome::skip("task refused (reported by part well-formed)"),
+        };
+        let dir = crate::cli::scratch_dir("c09x");
+        let mut key = String::new();
+        let mut both = 0;
+        let mut result = None;
+        let n = built.problems.len();
+        for (i, p) in built.problems.iter().enumerate().filter(|(i, _)| *i < 2 || *i + 2 >= n) {
+            if !p.text.is_ascii() || check_problem(p).is_err() {
+                continue;
+            }
+            let path = dir.join(format!("p{i}.p"));
+            std::fs::write(&path, &p.text).unwrap();
+            let out = match std::process::Command::new(TPTP4X).arg("-q3").arg(&path).output() {
+                Ok(o) => o,
+                Err(_) => {
+                    result = Some(Outcome::skip("tptp4X cannot be started"));
+                    break;
+                }
+            };
+            if !out.status.success() {
+                result = Some(Outcome::fail(
+                    "tptp4x-rejects",
+                    format!(
+                        "C09: tptp4X rejects problem {} which the strict reader accepts\n  tptp4X: {}{}\n{}\n--- problem text ---\n{}",
+                        p.name,
+                        String::from_utf8_lossy(&out.stdout).chars().take(400).collect::<String>(),
+                        String::from_utf8_lossy(&out.stderr).chars().take(400).collect::<String>(),
+                        built.description,
+                        tail(&p.text)
+                    ),
+                ));
+                break;
+            }
+            both += 1;
+            key.push_str(&p.text[p.text.len().saturating_sub(400)..]);
+        }
+        let _ = std::fs::remove_dir_all(&dir);
+        if let Some(o) = result {
+            return o;
+        }
+        Outcome::pass(both > 0, hash64(&key)).label(format!("checked={both}")).readable(built.description.clone())
     }
     fn describe(&self, case: &TaskCase) -> Value {
         case_json(case)
@@ -617,7 +702,7 @@ impl Check for C12 {
         }
         labels.sort();
         labels.dedup();
-        Outcome::pass(nontrivial, hash64(&key)).labels(labels)
+        Outcome::pass(nontrivial, hash64(&key)).labels(labels).readable(built.description.clone())
     }
     fn describe(&self, case: &OwnCase) -> Value {
         json!({"task": case_json(&case.task), "raw": raw_json(&case.raw)})
